@@ -209,7 +209,7 @@ impl jbk::creator::Progress for Perturb {
     fn content_added(&self, _size: jbk::Size) {}
 }
 
-fn set_affinity(n: usize) -> bool {
+pub(crate) fn set_affinity(n: usize) -> bool {
     unsafe {
         let mut all: libc::cpu_set_t = std::mem::zeroed();
         if libc::sched_getaffinity(0, std::mem::size_of::<libc::cpu_set_t>(), &mut all) != 0 {
@@ -230,7 +230,7 @@ fn set_affinity(n: usize) -> bool {
     }
 }
 
-fn reset_affinity(all: &libc::cpu_set_t) {
+pub(crate) fn reset_affinity(all: &libc::cpu_set_t) {
     unsafe {
         libc::sched_setaffinity(0, std::mem::size_of::<libc::cpu_set_t>(), all);
     }
